@@ -76,6 +76,9 @@ class Check:
         for k in self.known:
             if k.get("status") == "known" and k["key"] == full:
                 self.known_hits.append({"key": full, "site": site, "what": k["what"], "msg": msg})
+                # an obligation that fails with a recorded known finding is reported as such, not counted as a proof obligation
+                self.obligations -= 1
+                self.known_obligations = getattr(self, "known_obligations", 0) + 1
                 return
         self.viol.append({"rule": rid, "key": full, "site": site, "msg": msg, "detail": detail})
 
@@ -146,7 +149,8 @@ class Check:
                                for rid, r in self.rules.items()},
             "obligations": self.obligations,
             "discharged": self.discharged,
-            "evaluations": max(self.obligations, 1),
+            "obligations_failing_with_known_finding": getattr(self, "known_obligations", 0),
+            "evaluations": max(self.obligations + getattr(self, "known_obligations", 0), 1),
             "distinct_nontrivial": len(self.nontrivial),
             "rule": "one evaluation = one rule instance (obligation) extracted from /repo's current source; distinct = "
                     "distinct (rule, construct) pairs; non-trivial = the instance had a non-empty obligation to check",
